@@ -74,3 +74,12 @@ EOF
 
     done
 }
+add_seed_selftest () 
+{ 
+    s=$1;
+    pid=$2;
+    exp=$3;
+    name=$4;
+    cp seeded/$s/patch.diff selftest/$pid/seed-$name.patch;
+    sed -i "1i # seeded variant (sub-agent $s)\n# expect: $exp" selftest/$pid/seed-$name.patch
+}
